@@ -15,6 +15,8 @@ class ReplayMismatch(Exception):
 def _val(v):
     if v is None:
         raise ReplayMismatch("missing value")
+    if "sel" in v:
+        return v["sel"]
     if "frac" in v:
         return float(Fraction(v["frac"][0], v["frac"][1]))
     if "float" in v:
